@@ -49,7 +49,10 @@ def _get_samplers_id_table(saving_folder: str | os.PathLike) -> dict[str, int]:
     with output_file.open("rb") as f:
         method_list = pickle.load(f)  # nosec B301
 
-    return Calibrator._construct_samplers_id_table(method_list)  # noqa: SLF001
+    # checkpoints written by the calibrator store the scheduler, older ones the plain list of samplers
+    samplers = getattr(method_list, "samplers", method_list)
+
+    return Calibrator._construct_samplers_id_table(list(samplers))  # noqa: SLF001
 
 
 def _get_samplers_names(
